@@ -345,6 +345,35 @@ func C02(p *core.Program, r *core.Report) {
 	for _, g := range guards {
 		r.Check(guardMentions(g.fn, g.preds...), "rule-guard/"+fname(g.fn)+"/"+g.name, "the validator contains an error-producing branch whose condition mentions the fields/constants of this structural rule (a deleted rule is caught; a wrong connective is not)", p.Pos(g.fn.Pos()), "", "no error branch guarded by a condition mentioning the rule's operands")
 	}
+	// block numbers are unique INCLUDING the primary block's implicit number 0: the set of seen numbers starts with 0
+	// (or a branch rejects a canonical block numbered 0)
+	okZero := false
+	for _, f := range []*ssa.Function{cv, ccv} {
+		core.EachInstr(f, func(in ssa.Instruction) {
+			if b, ok := in.(*ssa.BinOp); ok && (b.Op == token.EQL || b.Op == token.NEQ) && pathEndsWith(b.X, "BlockNumber") {
+				if k, isC := core.ConstInt(b.Y); isC && k == 0 {
+					okZero = true
+				}
+			}
+		})
+	}
+	core.EachInstr(cv, func(in ssa.Instruction) {
+		mu, ok := in.(*ssa.MapUpdate)
+		if !ok {
+			return
+		}
+		k, isC := core.ConstInt(mu.Key)
+		if !isC || k != 0 {
+			return
+		}
+		// the same map is the one the number test looks into
+		for _, ref := range *mu.Map.Referrers() {
+			if lk, isLk := ref.(*ssa.Lookup); isLk && pathEndsWith(lk.Index, "BlockNumber") {
+				okZero = true
+			}
+		}
+	})
+	r.Check(okZero, "rule-guard/"+fname(cv)+"/number-0-is-the-primary-block", "the uniqueness test of block numbers counts the primary block's number 0 as taken", p.Pos(cv.Pos()), "", "a canonical block numbered 0 passes the validator: two blocks of the bundle share a number")
 	r.Count("rule guards", len(guards))
 	r.Min("rule guards", 15)
 	checkEndpointRegexps(p, r)
@@ -380,6 +409,8 @@ func C02(p *core.Program, r *core.Report) {
 		cc, ok := ex.Tuple.(*ssa.Call)
 		return ok && core.NameIs(core.CalleeName(cc), cbor+".ReadUInt")
 	}), "rule-guard/"+fname(pbu)+"/version-7", "the decoder rejects a version other than 7", p.Pos(pbu.Pos()), "", "no version test")
+	// a lifetime beyond a Duration's range must not wrap around ("lifetime not run out", store expiry)
+	checkMillisecondConversions(p, r, bp7, storagePkg, routingPkg)
 }
 
 // checkValidatorResults: in fn (and its closures) every call to a validator
